@@ -310,8 +310,10 @@ static void gs_family_shapes(int (*mine)(uint64_t), uint64_t *idx, gs_cb cb, voi
 	for (int tl = 0; tl < 5; tl++)
 		for (int ls = 0; ls < 3; ls++)
 			for (int ds = 0; ds < 3; ds++)
-				for (int style = 0; style < 2; style++)
+				for (int style = 0; style < 3; style++)
 					for (int hm = 0; hm < 4; hm++) {
+						if (style == 2 && (ds || hm))
+							continue; /* style 2 (zero runs spelt with symbol 16 after 17/18 or after an explicit 0): lit/len shapes only */
 						uint64_t id = (*idx)++;
 						if (!mine(id))
 							continue;
